@@ -24,6 +24,7 @@ type InvWriter struct {
 type Clause struct {
 	COnly bool // speaks about the C-side representation (struct fields): not used at cgo call sites
 	Slow  bool // only checked in the thorough tier (takes longer than the quick per-obligation budget)
+	Long  bool // known to need more solver time than most: its obligations get a four times larger budget
 	Label string
 	Src   string
 	Expr  ast.Expr
@@ -441,6 +442,9 @@ func splitFuncHead(s string) (string, string) {
 	return splitWord(s)
 }
 
+// longLabels: labels of clauses marked `long` (the obligations generated from them get a larger solver budget)
+var longLabels = map[string]bool{}
+
 func parseClause(s, pos string) (Clause, error) {
 	s = strings.TrimSpace(s)
 	c := Clause{Pos: pos}
@@ -450,6 +454,11 @@ func parseClause(s, pos string) (Clause, error) {
 		if strings.HasSuffix(c.Label, " c-only") {
 			c.Label = strings.TrimSuffix(c.Label, " c-only")
 			c.COnly = true
+		}
+		if strings.HasSuffix(c.Label, " long") {
+			c.Label = strings.TrimSuffix(c.Label, " long")
+			c.Long = true
+			longLabels[c.Label] = true
 		}
 		if strings.HasSuffix(c.Label, " slow") {
 			c.Label = strings.TrimSuffix(c.Label, " slow")
